@@ -271,10 +271,29 @@ def auto_extract(unit, spec, ex, compiler_output):
     names = set(re.findall(r'no method named `(\w+)` found', compiler_output))
     names |= set(re.findall(r'no function or associated item named `(\w+)` found', compiler_output))
     names |= set(re.findall(r'cannot find function `(\w+)` in this scope', compiler_output))
-    if not names:
+    values = set(re.findall(r'cannot find value `(\w+)` in this scope', compiler_output))
+    if not names and not values:
         return False
     tmpl = open(os.path.join(unit['dir'], spec['template'])).read()
     added = False
+    for mo in re.finditer(r'^\s*//@autosemi\s+(.*)$', tmpl, re.M):
+        a = render._args(mo.group(1))
+        key = (a['file'], '#semi')
+        try:
+            src = rsx.Src.load(REPO + '/' + a['file'])
+        except Exception:
+            continue
+        for nm in sorted(values):
+            if nm in ex.auto.get(key, []):
+                continue
+            for k2 in ('const', 'static'):
+                try:
+                    src.semi_item(k2, nm)
+                except rsx.LostAnchor:
+                    continue
+                ex.auto.setdefault(key, []).append(nm)
+                added = True
+                break
     for mo in re.finditer(r'^\s*//@autofns\s+(.*)$', tmpl, re.M):
         a = render._args(mo.group(1))
         key = (a['file'], a.get('impl'))
